@@ -48,6 +48,9 @@ type Case struct {
 	Unit    int64   `json:"unit,omitempty"`
 	GroupBy bool    `json:"groupby"`
 	Bs      []B     `json:"bs"`
+	// Epoch: times start at the Unix epoch (the first point of the first batch may sit exactly on
+	// 1970-01-01T00:00:00Z) instead of in 2017
+	Epoch bool `json:"epoch,omitempty"`
 	// Pre is a node between the source of the batches and the aggregation: "" | where-all (passes
 	// everything) | where-half (drops the points with odd "w") | eval (adds a field)
 	Pre string `json:"pre,omitempty"`
@@ -113,6 +116,7 @@ func gen(t *rapid.T) Case {
 		c.Unit = rapid.SampledFrom([]int64{1, 1e6, sec, 7}).Draw(t, "unit")
 	}
 	c.GroupBy = rapid.Bool().Draw(t, "groupby")
+	c.Epoch = rapid.IntRange(0, 7).Draw(t, "epoch") == 0
 	c.Pre = rapid.SampledFrom([]string{"", "", "", "where-all", "where-half", "eval"}).Draw(t, "pre")
 	if c.Stream && rapid.Bool().Draw(t, "window") {
 		c.Win = &[2]int{rapid.IntRange(1, 6).Draw(t, "periodCount"), rapid.IntRange(1, 6).Draw(t, "everyCount")}
@@ -229,10 +233,11 @@ func (c Case) unit() int64 {
 }
 
 type pv struct {
-	t int64
-	v kit.FV
-	f float64
-	i int64
+	t    int64
+	v    kit.FV
+	f    float64
+	i    int64
+	tags map[string]string // the point's own tags
 }
 
 // materialise builds the inputs: batches (batch form) or points (stream form) in feed order, and
@@ -245,6 +250,10 @@ func (c Case) materialise() (pts []kit.Pt, bts []kit.Bt, lbs []LB) {
 		keep bool
 	}
 	received := map[int][]wp{} // window form: the group's points so far
+	t0 := t0
+	if c.Epoch {
+		t0 = 0
+	}
 	tw := t0
 	for k, b := range c.Bs {
 		host := fmt.Sprintf("h%d", b.G)
@@ -285,7 +294,15 @@ func (c Case) materialise() (pts []kit.Pt, bts []kit.Bt, lbs []LB) {
 				p.i, p.f = b.I[j], float64(b.I[j])
 			}
 			p.v = fv
+			// the points' own tags vary: some lack o, and without groupBy some have no tag at all
 			tags := map[string]string{"host": host, "o": fmt.Sprintf("o%d", j%2)}
+			if j%3 == 2 {
+				delete(tags, "o")
+				if !c.GroupBy && j%2 == 1 {
+					delete(tags, "host")
+				}
+			}
+			p.tags = tags
 			fields := map[string]kit.FV{"v": fv, "w": kit.I(int64(j))}
 			has := !(b.Miss == 1 || b.Miss == 2 && j%2 == 1)
 			if !has {
@@ -683,7 +700,32 @@ func run(c Case, cc *kit.Case) {
 	}
 	ctx := func() string { return fmt.Sprintf("\nscript: %s", script) }
 
-	checkPoint := func(p kit.Pt, g int, o out, selector bool, where string) bool {
+	// tagsFromInput: the tags of an emitted selector / top / bottom point are the group's tags, or the
+	// group's tags plus the own tags of an input point that carries the emitted value (and time,
+	// when point times are used) - never tags of another point
+	tagsFromInput := func(tags map[string]string, v kit.FV, t int64, gt map[string]string, in []pv) bool {
+		eq := func(a, b map[string]string) bool { return reflect.DeepEqual(a, b) || len(a) == 0 && len(b) == 0 }
+		if eq(tags, gt) {
+			return true
+		}
+		for _, q := range in {
+			if q.v != v || c.UsePT && q.t != t {
+				continue
+			}
+			m := map[string]string{}
+			for k, x := range q.tags {
+				m[k] = x
+			}
+			for k, x := range gt {
+				m[k] = x
+			}
+			if eq(tags, m) {
+				return true
+			}
+		}
+		return false
+	}
+	checkPoint := func(p kit.Pt, g int, o out, selector bool, where string, in []pv) bool {
 		v, okv := p.Fields[as]
 		if !okv {
 			cc.Fail("agg/field-name", "%s: output has fields %v, no field %q%s", where, p.Fields, as, ctx())
@@ -701,6 +743,10 @@ func run(c Case, cc *kit.Case) {
 					cc.Fail("agg/tags", "%s: tags %v lack the group's tags %v%s", where, p.Tags, gt, ctx())
 					return false
 				}
+			}
+			if in != nil && !tagsFromInput(p.Tags, v, p.Time, gt, in) {
+				cc.Fail("agg/tags-of-another-point", "%s: tags %v are neither the group's tags %v nor those plus the own tags of an input point with value %v%s", where, p.Tags, gt, v, ctx())
+				return false
 			}
 		} else {
 			if !(reflect.DeepEqual(p.Tags, gt) || len(p.Tags) == 0 && len(gt) == 0) {
@@ -789,7 +835,7 @@ func run(c Case, cc *kit.Case) {
 			o, ok := c.reduce(run, b.Float, tb)
 			o.scale = scale
 			if ok {
-				exp[gid] = append(exp[gid], expItem{point: &o, g: b.G})
+				exp[gid] = append(exp[gid], expItem{point: &o, g: b.G, in: run})
 			}
 		}
 	}
@@ -820,7 +866,7 @@ func run(c Case, cc *kit.Case) {
 					cc.Fail("agg/identity", "%s: name %q group %q, want m %q%s", where, o.P.Name, o.P.Group, gid, ctx())
 					return
 				}
-				if !checkPoint(*o.P, e.g, *e.point, selectors[c.Fn], where) {
+				if !checkPoint(*o.P, e.g, *e.point, selectors[c.Fn], where, e.in) {
 					return
 				}
 				continue
@@ -845,7 +891,7 @@ func run(c Case, cc *kit.Case) {
 					return
 				}
 				for j, p := range b.Points {
-					if !checkPoint(p, e.g, e.batch[j], false, fmt.Sprintf("%s point %d", where, j)) {
+					if !checkPoint(p, e.g, e.batch[j], false, fmt.Sprintf("%s point %d", where, j), nil) {
 						return
 					}
 				}
@@ -879,6 +925,10 @@ func run(c Case, cc *kit.Case) {
 						return
 					}
 				}
+				if c.Fn != "distinct" && !tagsFromInput(p.Tags, v, p.Time, gt, e.in) {
+					cc.Fail("agg/tags-of-another-point", "%s: point %v carries tags %v: neither the group's tags %v nor those plus the own tags of an input point with that value%s", where, v, p.Tags, gt, ctx())
+					return
+				}
 			}
 			for _, w := range e.batch {
 				want = append(want, w.vals[0].String())
@@ -904,7 +954,7 @@ var assumptions = []string{
 	"float results of sum/mean/median/spread/stddev/difference/cumulativeSum/movingAverage are compared with tolerance 1e-12 relative to the largest input magnitude involved (the batch; the group's history for running transformations); integer inputs are summed exactly (summation order and running-sum implementations are unspecified); selector and integer results exactly",
 	"percentile uses InfluxDB's nearest-rank index floor(n*p/100+0.5)-1 and emits nothing when that index is out of range",
 	"a batch holds one field type; the type may change between batches (and between equal-time runs in stream form); stream transformations see one field type per group",
-	"selectors (first last min max percentile) may carry the selected point's own tags and other fields; all other functions emit exactly the field named by as() and the group's tags",
+	"selectors (first last min max percentile) and top/bottom may carry the selected point's own tags and other fields - the group's tags, or the group's tags plus the own tags of an input point that carries the emitted value (and time, with usePointTimes), never another point's tags; all other functions emit exactly the field named by as() and the group's tags",
 	"stream form: the output for the last equal-time run of a group may be absent (nothing marks its end); a run is a maximal sequence of consecutive points of a group with equal time - a point with an older time ends the current run like one with a newer time (late runs are generated for the single-value and batch-valued functions, not for the running transformations)",
 	"a point that lacks the aggregated field contributes no value (it is reported and skipped); a batch none of whose points carries the field is an empty batch; window().periodCount(P).everyCount(E) emits after every E-th point of a group its last min(n, P) points, stamped with the last one's time (C03's subject)",
 	"usePointTimes is generated for selectors and top/bottom only (what the property names)",
